@@ -76,6 +76,7 @@ var registry = map[string]runner{
 	"C12/tree":         wtree.Run,
 	"C17/tree":         wtree.Run,
 	"C17/revisions":    w13.Revisions,
+	"C12/revisions":    w13.Revisions,
 }
 
 // replayers re-run one concrete case of a family whose cases are not addressed by index.
